@@ -1,5 +1,6 @@
 import BM.Proofs.Step
 import BM.Proofs.Escape
+import BM.Proofs.Bytes
 /-
   C01: only allowlisted elements reach the output.
 
@@ -76,6 +77,51 @@ theorem C01_events (p : Policy) (hu : p.allowUnsafe = false) (input : Bytes) :
 /-- escaped text is inert: it cannot contain a tag opener or closer or a quote -/
 theorem text_write_inert (d : Bytes) : ∀ c ∈ escape d, c ≠ 60 ∧ c ≠ 62 ∧ c ≠ 34 ∧ c ≠ 39 :=
   fun c hc => let h := escape_no_special d c hc; ⟨h.1, h.2.1, h.2.2.1, h.2.2.2.1⟩
+
+/-- **C01 (byte level)**: for every *plain* policy (no AllowUnsafe, no comments, no raw-text
+    element on its allowlist) and every input, every token an HTML tokenizer finds in the
+    bytes the sanitiser returns is a text, or a start / end / self-closing tag naming an element
+    the policy allows; no comment and no doctype is ever found.  Together with
+    `C01_events` this removes the re-tokenisation gap for this class of policies. -/
+theorem C01_bytes (p : Policy) (hp : Plain p.ensureInit) (input : Bytes) :
+    ∀ k ∈ tokenize (p.sanitizeCore input),
+      k.tt = .text ∨ (isTag k = true ∧ allowsElement p.ensureInit k.data = true) := by
+  intro k hk
+  obtain ⟨toks, _, hrt, hf⟩ := sanitizeTokens_roundtrip hp (tokenize input) (tokenize_wf input)
+  unfold Policy.sanitizeCore at hk
+  rw [hrt] at hk
+  rcases mem_coalesce toks [] k hk with h | ⟨hmem, hne⟩
+  · exact .inl h.1
+  · obtain ⟨t, _, hseg, hor⟩ := hf k hmem
+    rcases hor with h | ⟨_, _, hall, _⟩
+    · exact absurd h.1 hne
+    · refine .inr ⟨?_, hall⟩
+      unfold SegOK at hseg
+      unfold isTag
+      cases htt : k.tt with
+      | text => exact absurd htt hne
+      | start => rfl
+      | end_ => rfl
+      | selfClosing => rfl
+      | comment => rw [htt] at hseg; exact hseg.elim
+      | doctype => rw [htt] at hseg; exact hseg.elim
+
+/-- in particular the output of a plain policy contains no comment and no doctype -/
+theorem C01_bytes_no_comment_doctype (p : Policy) (hp : Plain p.ensureInit) (input : Bytes) :
+    ∀ k ∈ tokenize (p.sanitizeCore input), k.tt ≠ .comment ∧ k.tt ≠ .doctype := by
+  intro k hk
+  rcases C01_bytes p hp input k hk with h | ⟨h, _⟩
+  · simp [h]
+  · unfold isTag at h
+    cases htt : k.tt <;> rw [htt] at h <;> first | exact absurd h (by decide) | exact ⟨by decide, by decide⟩
+
+/-- non-vacuity of `Plain`: a policy that allows `b` and `a href` is plain -/
+example : Plain ({ initialized := true, elsAndAttrs := [(b!"b", []), (b!"a", [(b!"href", [none])])],
+                   setOfElementsAllowedWithoutAttrs := [b!"b"] } : Policy).ensureInit := by
+  refine ⟨rfl, rfl, ?_⟩
+  intro n hn
+  simp only [isRawTagName, Bool.or_eq_true, beq_iff_eq] at hn
+  rcases hn with ((((((((h | h) | h) | h) | h) | h) | h) | h) | h) | h <;> subst h <;> decide
 
 /-- non-vacuity: a policy and an input for which tags are really written and really dropped -/
 example :
